@@ -5,7 +5,7 @@ sys.path.insert(0, "/verif")
 from tools import manifest_src as M
 
 checks = []
-for c in M.CHECKS:
+for c in sorted(M.CHECKS, key=lambda c: c["id"]):
   checks.append({
       "property_id": c["id"],
       "quick_cmd": "./check %s quick" % c["id"],
